@@ -112,23 +112,32 @@ class TokenParser(Parser):
             nextval = 1
 
         values = {}
-        for line in d["values"].splitlines():
-            for v in line.split(","):
-                key, _, val = v.partition("=")
-                key = key.strip()
-                val = val.strip()
-                if not key:
-                    continue
-
-                val = nextval if not val else Expression(self.cstruct, val).evaluate(values)
-
-                if enumtype == "flag":
-                    high_bit = val.bit_length() - 1
-                    nextval = 2 ** (high_bit + 1)
+        # Members are separated by commas or line breaks, but a member may be continued on the next line
+        # when the break is next to its "=" or inside its value expression
+        members = []
+        for chunk in d["values"].split(","):
+            for piece in filter(None, (p.strip() for p in chunk.splitlines())):
+                if members and (piece[0] in "=*/%+-<>&^|)" or members[-1][-1] in "=*/%+-<>&^|(~"):
+                    members[-1] += " " + piece
                 else:
-                    nextval = val + 1
+                    members.append(piece)
 
-                values[key] = val
+        for v in members:
+            key, _, val = v.partition("=")
+            key = key.strip()
+            val = val.strip()
+            if not key:
+                continue
+
+            val = nextval if not val else Expression(self.cstruct, val).evaluate(values)
+
+            if enumtype == "flag":
+                high_bit = val.bit_length() - 1
+                nextval = 2 ** (high_bit + 1)
+            else:
+                nextval = val + 1
+
+            values[key] = val
 
         if not d["type"]:
             d["type"] = "uint32"
